@@ -63,6 +63,8 @@ def work(chunk):
                 meters = P['PAT_TRACK'].match(c).group('meters') if want == 1 else 'x'
                 if key[0] != want and not (want == 1 and meters is None and key[0] in (1, 2)):
                     acc.bad('family-rank-wrong:%d-instead-of-%d' % (key[0], want), dict(code=c), 'discipline_sort_key(%r) = %r, family rank should be %d' % (c, key, want))
+        if ok and len(acc.samples) < 1 and acc.n % 97 == 0:
+            acc.samples.append(dict(code=c, sort_key=list(key), distance=U.get_distance(c)))
         ok2, t = call(acc, U.text_discipline_sort_key, 'text_discipline_sort_key', c)
         if ok2 and not isinstance(t, str):
             acc.bad('text-key-not-str', dict(code=c), repr(t))
